@@ -502,7 +502,7 @@ func runC16Many(run *Run, seed int64, recv string, skip bool) (out []*c01Result)
 	if recv != "" && !skip {
 		foreign = append(foreign, "", recv[:len(recv)-1])
 	}
-	for i := 0; i < 140; i++ {
+	for i := 0; i < 440; i++ {
 		lb := foreign[i%len(foreign)]
 		ce, err := x.EP.DialAddressTimeout(memberlist.Address{Addr: rig.V.EP.Addr, Name: "V"}, time.Second)
 		if err != nil {
@@ -510,6 +510,22 @@ func runC16Many(run *Run, seed int64, recv string, skip bool) (out []*c01Result)
 			return
 		}
 		c := ce.(*ConnEnd)
+		if i >= 140 {
+			// (beyond the first 140) headers that are broken rather than foreign: the label cut short, a zero-length
+			// label, only the header's first byte - then the stream ends
+			hdr := LabelHeader("partial-label")
+			switch i % 3 {
+			case 0:
+				_, _ = c.Write(hdr[:len(hdr)-4])
+			case 1:
+				_, _ = c.Write([]byte{hdr[0], 0})
+			case 2:
+				_, _ = c.Write(hdr[:1])
+			}
+			Settle(time.Millisecond)
+			c.Close()
+			continue
+		}
 		_, _ = c.Write(LabelHeader(lb))
 		body := BuildPushPull(i%2 == 0, []WPushNodeState{{Name: fmt.Sprintf("intruder-%d", i), Addr: []byte{10, 9, 3, byte(i%250 + 1)}, Port: 7946, Incarnation: 1, State: SAlive, Vsn: DefaultVsn()}}, nil)
 		if i%3 == 2 {
@@ -528,7 +544,7 @@ func runC16Many(run *Run, seed int64, recv string, skip bool) (out []*c01Result)
 	run.Eval(1)
 	run.Cell("iso", "many-foreign-streams", fmt.Sprintf("recv=%d", len(recv)), fmt.Sprintf("skip=%v", skip))
 	if n := rig.V.ML().VerifPushPullInFlight(); n != 0 {
-		fail("leak/many/slots", "after 140 streams for other labels the node holds %d of its push/pull slots although no stream is open (receiver label %q, skip=%v)", n, recv, skip)
+		fail("leak/many/slots", "after 440 streams for other labels or with broken label headers the node holds %d of its push/pull slots although no stream is open (receiver label %q, skip=%v)", n, recv, skip)
 		return
 	}
 	if len(rig.V.MemberNames()) != 2 {
@@ -536,7 +552,7 @@ func runC16Many(run *Run, seed int64, recv string, skip bool) (out []*c01Result)
 	}
 	frames, _, err := x.PushPull(true, []WPushNodeState{x.Self(1)}, nil)
 	if err != nil || len(frames) == 0 {
-		fail("leak/many/service", "after 140 streams for other labels a genuine join push/pull under the node's own label is no longer served (err=%v, %d frames)", err, len(frames))
+		fail("leak/many/service", "after 440 streams for other labels or with broken label headers a genuine join push/pull under the node's own label is no longer served (err=%v, %d frames)", err, len(frames))
 	}
 	return
 }
